@@ -1,6 +1,7 @@
 (* C22 — order-hint distance. Every copy of the helper in /repo (regenerated into
    SVG.RelDistGen on every run) returns the signed distance modulo the order-hint
-   period for every bits >= 1 and all integers a, b; 0 when order hints are off.
+   period for every 1 <= bits <= 31 (what a C int shift admits; AV1 has bits <= 8) and all integers a, b;
+   0 when order hints are off.
    Statements only; proofs are in Proofs_C22.v. *)
 From Coq Require Import ZArith List Lia.
 From SV Require Import RelDistSpec Proofs_C22.
@@ -10,7 +11,7 @@ Local Open Scope Z_scope.
 
 Theorem rel_dist_all_copies :
   Forall (fun f : Z -> Z -> Z -> Z -> Z =>
-    forall en bits a b, 1 <= bits ->
+    forall en bits a b, 1 <= bits <= 31 ->
       (en <> 0 -> let r := f en bits a b in
                   (r - (a - b)) mod 2 ^ bits = 0 /\ - 2 ^ (bits - 1) <= r < 2 ^ (bits - 1)) /\
       (en = 0 -> f en bits a b = 0))
